@@ -4,6 +4,7 @@ import multiprocessing
 import os
 import random
 import warnings
+from collections import ChainMap, OrderedDict
 
 from harness import interp_common as ic
 from harness.interp_gen import Gen
@@ -20,12 +21,26 @@ RULE = ('one case = one history of 20-200 operations on one interpreter whose ca
         'implementation reports the returned Path and len() of both sub-caches; for every glom call: outcome vs the first '
         'time that call was made in this history, vs the same call made first in a freshly spawned interpreter '
         '(spawned process per call; 60 per run quick, 2000 thorough), and a deep snapshot (structure + object ids) of '
-        'target, spec and scope mapping before/after. non-trivial = history has a repeat of a call after a cache-changing '
-        'operation; distinct = distinct op sequences')
-TRUSTED = ['the handler memo of TargetRegistry is proved in the abstract model (c06_handler_memo) and in C13 '
-           '(c13_lookup_pure); here it is exercised through glom calls only']
+        'target, spec and scope mapping before/after. The pool also holds (a) specs that hold caller-provided mutable '
+        'objects which glom must copy: S(vv=Vars(<dict> | <OrderedDict> | <pairs> | {} | nothing, **defaults)) followed by '
+        'a dict of A.vv.n writes / S.vv.n reads / A.globals.n / S.globals.n / A.n / S.n in random order (two holders may '
+        'share one dict), binder chains, Spec(x, scope={..}), Fill shapes, container defaults/literals, with a caller '
+        'scope mapping in half of them; observed: a deep snapshot (every attribute of every spec object, recursively, by '
+        'structure and identity, incl. the mapping handed to Vars) of the spec graph and of the caller\'s scope mapping '
+        'before/after, the reads replayed through the Lean heap model of Vars; (b) instances of a generated class '
+        'hierarchy (3-6 classes, chains / diamonds, MRO as Python computed it) reached by string paths, list specs and '
+        'iteration, evaluated through the module-level registry and 0-2 Glommers, with registrations of tagged get / '
+        'iterate handlers for a class, one of its bases or subclasses, or an unrelated class between the calls '
+        '(type-directed: a lookup, a registration of a related type in the same registry, the same lookup again); '
+        'observed: the tag of the handler that ran per (exact type, op), replayed through the memo model per registry, '
+        'and the outcome of the same call in a freshly built Glommer given the same registrations in the same order. '
+        'non-trivial = history has a repeat of a call after a cache-changing operation; distinct = distinct op sequences')
+TRUSTED = ['the uncached handler lookup is modelled as "nearest type of the MRO with a handler" (real subclasses only; the '
+           'type-tree walk, virtual subclasses and exact= are C13\'s subject)']
 ASSUMPTIONS = ['"inputs untouched" is observed (snapshots), not proved at heap level: the interpreter model has immutable '
-               'values', 'specs in the pool contain no Assign/Delete/scope assignment into target-owned objects']
+               'values (except for Vars/ScopeVars: c06_vars_frame on a heap of dict objects)',
+               'specs in the pool contain no Assign/Delete/scope assignment into target-owned objects; scope assignment '
+               'into the per-call scope (A.n, A.v.n, A.globals.n) is in the domain']
 MANIFEST = dict(
     text=("Lean 4 theorems about the two caches exactly as glom implements them (Path.from_text: membership test, "
           "overflow bypass when len > _MAX_CACHE, store, return; one dict per PATH_STAR value; get_handler memo reset by "
@@ -43,6 +58,8 @@ MANIFEST = dict(
     ref='DESIGN.md §3 C06')
 
 TEXTS = ['a', 'a.b', 'a.*', '*', '**', '**.b', 'a.*.b', 'x.0.y', '', 'a..b', '0', 'k0.k1.k2', '*.*', 'a.**.c']
+UNSET = '<unset>'
+VNAMES = ['a', 'b', 'c']
 
 
 def pool(rng):
@@ -68,6 +85,196 @@ def pool(rng):
     return out
 
 
+# ------------------------------------------------------------------ specs holding caller-provided mutable objects
+def holder_entry(rng, g):
+    """S(vv=Vars(<mapping>, **defaults)) followed by a dict of writes / reads of the variable holder, of
+    S.globals and of the plain scope, in random order.  `vars_model` lists the reads / writes of vv
+    in evaluation order (every write stores the current target)."""
+    jv = ic.enc
+    kind = rng.choice(['dict', 'dict', 'dict', 'empty', 'none', 'odict', 'pairs'])
+    base = []
+    if kind in ('dict', 'odict', 'pairs'):
+        for n in rng.sample(VNAMES + ['floor'], rng.randint(1, 2)):
+            base.append([n, jv(rng.choice([0, 5, 'bv', None, [1, 2]]))])
+    defaults = []
+    if rng.random() < 0.35:
+        defaults = [[rng.choice(VNAMES), jv(rng.choice([0, 'dv']))]]
+    v06 = {'k': 'vars06', 'base_kind': kind, 'base': base, 'defaults': defaults, 'bid': 0}
+    bs = [['vv', v06]]
+    shared = kind in ('dict', 'empty', 'odict') and rng.random() < 0.15
+    if shared:
+        bs.append(['ww', dict(v06, defaults=[])])       # a second holder built on the same mapping object
+    ops = []
+    pre = []
+    for _ in range(rng.randint(0, 2)):
+        n = rng.choice(VNAMES)
+        pre.append({'k': 'aVar', 'var': 'vv', 'name': n})
+        ops.append(['w', n])
+    es = []
+
+    def rd(spec):
+        return {'k': 'coalesce', 'subs': [spec], 'dflt': {'k': 'lit', 'v': jv(UNSET)}, 'dflt_factory': None,
+                'skip': None, 'skip_exc': ['GlomError']}
+    for i in range(rng.randint(2, 6)):
+        n = rng.choice(VNAMES + (['floor'] if i % 3 == 0 else []))
+        key = {'k': 'str', 's': 'e%d' % i}
+        q = rng.random()
+        if q < 0.3:
+            es.append([key, rd({'k': 'sVarRead', 'var': 'vv', 'name': n})])
+            ops.append(['r', n, 'e%d' % i])
+        elif q < 0.55:
+            es.append([key, {'k': 'aVar', 'var': 'vv', 'name': n}])
+            ops.append(['w', n])
+        elif q < 0.65:
+            es.append([key, rd({'k': 'sGlobRead', 'name': n})])
+        elif q < 0.75:
+            es.append([key, {'k': 'aGlob', 'name': n}])
+        elif q < 0.83:
+            es.append([key, rd({'k': 'sRead', 'name': n, 'steps': [], 'item': rng.random() < 0.5})])
+        elif q < 0.9:
+            es.append([key, {'k': 'aBind', 'name': n}])
+        elif shared:
+            es.append([key, rd({'k': 'sVarRead', 'var': 'ww', 'name': n})] if rng.random() < 0.5 else
+                      [key, {'k': 'aVar', 'var': 'ww', 'name': n}])
+        else:
+            es.append([key, g.leaf(0)])
+    spec = {'k': rng.choice(['tuple', 'tuple', 'pipe']),
+            'xs': [{'k': 'sBind', 'bs': bs}] + pre + [{'k': 'dict', 'es': es}]}
+    t = rng.choice([0, 1, 7, 'x', 'tv', None, [1], {'a': 1}])
+    entry = {'target': jv(t), 'spec': spec, 'holder': True}
+    if not shared:
+        entry['vars_model'] = {'base': base, 'defaults': defaults, 'ops': ops}
+    if rng.random() < 0.4:
+        entry['scope'] = [[rng.choice(VNAMES), jv(rng.choice([1, 'cs', [3]]))]]
+    return entry
+
+
+def binder_entry(rng):
+    """binder chains, Spec(x, scope={..}), Fill shapes, container literals / defaults (interp_gen), with a
+    caller scope mapping in half of them"""
+    g = Gen(rng, {'extra': ['binder', 'bindchain', 'bindchain', 'reader', 'fillshape', 'specW', 'val', 'coalesce'],
+                  'scope': True})
+    t = g.target()
+    entry = {'target': ic.enc(t), 'spec': g.spec(t, 2), 'holder': True}
+    if rng.random() < 0.5:
+        entry['scope'] = [[n, ic.enc(rng.choice([1, 'cs', [3], {'m': 1}]))] for n in rng.sample(Gen.POOL, rng.randint(1, 2))]
+    return entry
+
+
+def build06(j, fns):
+    """interp_common.build + Vars over every kind of mapping (the mapping object is the caller's: kept in
+    `fns` under its `bid`, shared by every Vars naming that bid)"""
+    import glom
+    k = j['k']
+    B = lambda x: build06(x, fns)
+    if k == 'vars06':
+        kind = j['base_kind']
+        dflt = {n: ic.dec(v, fns) for n, v in j['defaults']}
+        if kind == 'none':
+            return glom.Vars(**dflt)
+        key = ('vars06-base', j.get('bid', 0))
+        if key not in fns:
+            items = [(n, ic.dec(v, fns)) for n, v in j['base']]
+            fns[key] = {'dict': dict, 'empty': dict, 'odict': OrderedDict, 'pairs': list}[kind](items)
+        return glom.Vars(fns[key], **dflt)
+    if k == 'tuple':
+        return tuple(B(x) for x in j['xs'])
+    if k == 'pipe':
+        return glom.Pipe(*[B(x) for x in j['xs']])
+    if k == 'dict':
+        return {B(a): B(b) for a, b in j['es']}
+    if k == 'sBind':
+        return glom.S(**OrderedDict((n, B(v)) for n, v in j['bs']))
+    return ic.build(j, fns)
+
+
+# ------------------------------------------------------------------ a class hierarchy and its instances
+def _mk_classes(descs):
+    out = []
+    for d in descs:
+        bases = tuple(out[b] for b in d['bases']) or (object,)
+
+        def __init__(self, _n=d['name']):
+            self.name = 'v' + _n
+            self.items = [1, 2]
+
+        def __iter__(self):
+            return iter(self.items)
+
+        def __repr__(self):
+            return '<%s>' % type(self).__name__
+        out.append(type(d['name'], bases, {'__init__': __init__, '__iter__': __iter__, '__repr__': __repr__}))
+    return out
+
+
+def gen_classes(rng):
+    """3-6 classes: mostly chains, some second bases (diamonds / mixins), some fresh roots"""
+    descs = []
+    for i in range(rng.randint(3, 6)):
+        if i == 0 or rng.random() < 0.12:
+            bases = []
+        else:
+            first = i - 1 if rng.random() < 0.6 else rng.randrange(i)
+            bases = [first]
+            if i >= 2 and rng.random() < 0.25:
+                second = rng.randrange(i)
+                if second != first:
+                    bases.append(second)
+        d = {'name': 'K%d' % i, 'bases': bases}
+        try:
+            _mk_classes(descs + [d])
+        except TypeError:                 # no consistent MRO for this order of bases
+            d['bases'] = bases[:1]
+        descs.append(d)
+    for d, c in zip(descs, _mk_classes(descs)):
+        d['mro'] = [x.__name__ for x in c.__mro__]
+    return descs
+
+
+def obj_entry(rng, classes):
+    """a target made of instances of the generated classes + a spec whose handler lookups are known"""
+    i = rng.randrange(len(classes))
+    n = classes[i]['name']
+    p = rng.random()
+    if p < 0.35:
+        return {'otarget': {'inst': i}, 'spec': {'k': 'str', 's': 'name'}, 'lookups': [[n, 'get']]}
+    if p < 0.5:
+        return {'otarget': {'inst': i}, 'spec': {'k': 'list', 'xs': [{'k': 't', 'steps': []}]}, 'lookups': [[n, 'iterate']]}
+    if p < 0.65:
+        return {'otarget': {'inst': i},
+                'spec': {'k': 'dict', 'es': [[{'k': 'str', 's': 'n'}, {'k': 'str', 's': 'name'}],
+                                             [{'k': 'str', 's': 'xs'}, {'k': 'list', 'xs': [{'k': 't', 'steps': []}]}]]},
+                'lookups': [[n, 'get'], [n, 'iterate']]}
+    if p < 0.85:
+        js = [i] + [rng.randrange(len(classes)) for _ in range(rng.randint(0, 2))]
+        return {'otarget': {'l': [{'inst': x} for x in js]}, 'spec': {'k': 'list', 'xs': [{'k': 'str', 's': 'name'}]},
+                'lookups': [[classes[x]['name'], 'get'] for x in js]}
+    return {'otarget': {'d': [[{'s': 'k'}, {'inst': i}]]}, 'spec': {'k': 'str', 's': 'k.name'}, 'lookups': [[n, 'get']]}
+
+
+def dec_o(j, klasses, fns):
+    if isinstance(j, dict) and 'inst' in j:
+        return klasses[j['inst']]()
+    if isinstance(j, dict) and 'l' in j:
+        return [dec_o(x, klasses, fns) for x in j['l']]
+    if isinstance(j, dict) and 'd' in j:
+        return {dec_o(k, klasses, fns): dec_o(v, klasses, fns) for k, v in j['d']}
+    return ic.dec(j, fns)
+
+
+def tagged(op, tag):
+    """a handler whose result shows that it ran"""
+    if op == 'get':
+        def h(o, n):
+            ic.LOG.append({'handler': tag, 'op': 'get', 'type': type(o).__name__})
+            return [tag, getattr(o, n)]
+    else:
+        def h(o):
+            ic.LOG.append({'handler': tag, 'op': 'iterate', 'type': type(o).__name__})
+            return iter([[tag, x] for x in list(o.items)])
+    return h
+
+
 def _py_pool():
     import glom as G
     from glom.grouping import Group
@@ -88,10 +295,42 @@ def _py_pool():
 PY_NAMES = ['arg_dict_call', 'arg_list', 'flatten', 'group_flatten', 'group_fold_list', 'iter_all', 'merge', 'sum_lists']
 
 
+def related(rng, classes, i):
+    """a class related to class i: itself, one of its bases (any distance), or one of its subclasses"""
+    name = classes[i]['name']
+    ups = [k for k, c in enumerate(classes) if c['name'] in classes[i]['mro'][1:]]
+    downs = [k for k, c in enumerate(classes) if name in c['mro'][1:]]
+    p = rng.random()
+    if ups and p < 0.6:
+        return rng.choice(ups)
+    if downs and p < 0.8:
+        return rng.choice(downs)
+    return i
+
+
+def reg_op(rng, classes, reg, cls, counter):
+    kw = []
+    p = rng.random()
+    for op, lo, hi in (('get', 0.0, 0.7), ('iterate', 0.5, 0.9)):
+        if lo <= p < hi:
+            counter[0] += 1
+            kw.append([op, 'h%d' % counter[0]])
+    return {'op': 'register', 'reg': reg, 'cls': classes[cls]['name'], 'kw': kw}
+
+
 def generate(rng, tier, scale, **focus):
     n = (16 if tier == 'quick' else 300) * scale
     for i in range(n):
         pl = pool(rng)
+        g = Gen(rng, {'extra': []})
+        classes = gen_classes(rng)
+        n_regs = 1 + rng.randint(0, 2)                 # registry 0 = module-level, the others are Glommers
+        holders = [holder_entry(rng, g) for _ in range(3)] + [binder_entry(rng) for _ in range(2)]
+        objs = [obj_entry(rng, classes) for _ in range(4)]
+        names = PY_NAMES
+        entries = [{'target': t, 'spec': s} for t, s in pl] + [{'py': nm} for nm in names] + holders + objs
+        i_py, i_hold, i_obj = len(pl), len(pl) + len(names), len(pl) + len(names) + len(holders)
+        counter = [0]
         ops = []
         overflow_at = rng.randrange(5, 40) if (i % 2 == 0) else None
         length = rng.randint(20, 80 if tier == 'quick' else 200)
@@ -99,24 +338,50 @@ def generate(rng, tier, scale, **focus):
             if overflow_at == k:
                 ops.append({'op': 'fill', 'prefix': 'ovf%d_' % i, 'n': 10050})
             p = rng.random()
-            if p < 0.35:
+            if p < 0.3:
                 ops.append({'op': 'from_text', 'text': rng.choice(TEXTS)})
-            elif p < 0.85:
-                ops.append({'op': 'glom', 'idx': rng.randrange(len(pl))})
-            elif p < 0.95:
+            elif p < 0.82:
+                o = {'op': 'glom'}
+                q = rng.random()
+                if q < 0.35:
+                    o['idx'] = rng.randrange(len(pl))
+                    if rng.random() < 0.3:
+                        o['tidx'] = rng.randrange(len(pl))      # the same spec object on another entry's target
+                elif q < 0.55:
+                    o['idx'] = i_py + rng.randrange(len(names))
+                elif q < 0.8:
+                    o['idx'] = i_hold + rng.randrange(len(holders))
+                    if rng.random() < 0.3:
+                        o['tidx'] = rng.choice(list(range(len(pl))) + list(range(i_hold, i_obj)))
+                else:
+                    o['idx'] = i_obj + rng.randrange(len(objs))
+                if (q >= 0.8 or rng.random() < 0.2) and n_regs > 1:
+                    o['reg'] = rng.randrange(n_regs)
+                ops.append(o)
+            elif p < 0.9:
                 ops.append({'op': 'set_star', 'v': rng.random() < 0.5})
+            elif p < 0.93:
+                ops.append({'op': 'register', 'reg': rng.randrange(n_regs)})     # an unrelated fresh class
             else:
-                ops.append({'op': 'register'})
-        names = PY_NAMES
-        entries = [{'target': t, 'spec': s} for t, s in pl] + [{'py': n} for n in names]
-        # cross evaluations: the same spec object on another pool entry's target
-        for o in ops:
-            if o['op'] == 'glom':
-                if rng.random() < 0.35:
-                    o['idx'] = len(pl) + rng.randrange(len(names))
-                elif rng.random() < 0.3:
-                    o['tidx'] = rng.randrange(len(pl))
-        yield {'pool': entries, 'ops': ops, 'fresh_budget': 4 if tier == 'quick' else 7}
+                ops.append(reg_op(rng, classes, rng.randrange(n_regs), rng.randrange(len(classes)), counter))
+        # type-directed: a lookup, a registration of a related type in the same registry, the same lookup
+        for _ in range(rng.randint(0, 3)):
+            e = rng.randrange(len(objs))
+            ty, opname = rng.choice(objs[e]['lookups'])
+            ci = next(k for k, c in enumerate(classes) if c['name'] == ty)
+            reg = rng.randrange(n_regs)
+            r = reg_op(rng, classes, reg, related(rng, classes, ci), counter)
+            if rng.random() < 0.7 and not any(x[0] == opname for x in r['kw']):
+                counter[0] += 1
+                r['kw'].append([opname, 'h%d' % counter[0]])
+            pos = sorted(rng.randrange(len(ops) + 1) for _ in range(3))
+            call = {'op': 'glom', 'idx': i_obj + e}
+            if reg:
+                call['reg'] = reg
+            for off, item in enumerate((dict(call), r, dict(call))):
+                ops.insert(pos[off] + off, item)
+        yield {'pool': entries, 'classes': classes, 'n_regs': n_regs, 'ops': ops,
+               'fresh_budget': 4 if tier == 'quick' else 7}
 
 
 def corpus():
@@ -148,7 +413,60 @@ def snapshot(obj, seen=None):
     return repr(obj)
 
 
-def outcome(target, spec, star):
+_ATOMS = (type(None), bool, int, float, complex, str, bytes)
+
+
+def _attrs(obj):
+    """every attribute stored on an object: instance dict + slots of every class of its MRO"""
+    out = {}
+    d = getattr(obj, '__dict__', None)
+    if isinstance(d, dict):
+        out.update(d)
+    for c in type(obj).__mro__:
+        sl = c.__dict__.get('__slots__', ())
+        for n in ((sl,) if isinstance(sl, str) else sl):
+            if n in ('__dict__', '__weakref__'):
+                continue
+            try:
+                out[n] = object.__getattribute__(obj, n)
+            except AttributeError:
+                pass
+    return out
+
+
+def deep_snapshot(obj, seen=None):
+    """the object graph reachable from a spec / target / mapping: containers by structure and identity,
+    spec objects (and any other instance) by type, identity and every stored attribute, recursively
+    (so the dict handed to `Vars`, the scope of a `Spec`, the `__ops__` of a T, the children of
+    And / Or, the arguments of Call / Invoke … are all in it)"""
+    if seen is None:
+        seen = {}
+    if isinstance(obj, _ATOMS):
+        return repr(obj)
+    if id(obj) in seen:
+        return ('ref', seen[id(obj)])
+    seen[id(obj)] = len(seen)
+    tn = type(obj).__name__
+    if isinstance(obj, (list, tuple)):
+        return (tn, id(obj), [deep_snapshot(x, seen) for x in obj])
+    if isinstance(obj, (set, frozenset)):
+        return (tn, id(obj), sorted((deep_snapshot(x, seen) for x in obj), key=repr))
+    if isinstance(obj, dict):
+        items = [(deep_snapshot(k, seen), deep_snapshot(v, seen)) for k, v in list(obj.items())]
+        extra = deep_snapshot(_attrs(obj), seen) if type(obj) not in (dict, OrderedDict) else None
+        return (tn, id(obj), items, extra)
+    if isinstance(obj, ChainMap):
+        return (tn, id(obj), [deep_snapshot(m, seen) for m in obj.maps])
+    if isinstance(obj, ic.Fn):
+        return ('Fn', id(obj), obj.__name__, obj.kind)
+    if isinstance(obj, type) or (callable(obj) and not hasattr(type(obj), 'glomit')
+                                 and not type(obj).__module__.startswith('glom')):
+        return ('callable', id(obj), getattr(obj, '__qualname__', tn))
+    attrs = _attrs(obj)
+    return (tn, id(obj), [(n, deep_snapshot(attrs[n], seen)) for n in sorted(attrs)])
+
+
+def outcome(target, spec, star, call=None, scope=None):
     import glom
     import glom.core as gc
     gc.PATH_STAR = star
@@ -156,7 +474,10 @@ def outcome(target, spec, star):
     try:
         with warnings.catch_warnings():
             warnings.simplefilter('ignore')
-            res = glom.glom(target, spec)
+            if scope is not None:
+                res = (call or glom.glom)(target, spec, scope=scope)
+            else:
+                res = (call or glom.glom)(target, spec)
         out = {'ok': ic.enc(res)}
     except Exception as e:
         out = {'err': ic.exc_name(e)}
@@ -190,6 +511,33 @@ def fresh_pool():
     return _POOL
 
 
+def _jstr(v):
+    return json.dumps(v, sort_keys=True, separators=(',', ':'))
+
+
+def vars_observation(entry, key, target, oc):
+    """the reads / writes of the variable holder in evaluation order, with what the implementation read"""
+    vm = entry.get('vars_model')
+    if vm is None or 'ok' not in oc or not isinstance(oc['ok'], dict) or 'd' not in oc['ok']:
+        return None
+    try:
+        tv = _jstr(ic.enc(target))
+    except ValueError:
+        return None
+    res = {k.get('s'): v for k, v in oc['ok']['d'] if isinstance(k, dict)}
+    ops, reads = [], []
+    for op in vm['ops']:
+        if op[0] == 'w':
+            ops.append(['w', op[1], tv])
+        else:
+            ops.append(['r', op[1]])
+            got = res.get(op[2], {'s': UNSET})
+            reads.append(None if got == {'s': UNSET} else _jstr(got))
+    canon = lambda v: _jstr(ic.enc(ic.dec(v)))
+    return {'key': key, 'base': [[n, canon(v)] for n, v in vm['base']],
+            'defaults': [[n, canon(v)] for n, v in vm['defaults']], 'ops': ops, 'impl_reads': reads}
+
+
 def run_impl(case):
     import glom
     import glom.core as gc
@@ -199,13 +547,22 @@ def run_impl(case):
     saved_warned = Path._STAR_WARNED
     Path._CACHE = {True: {}, False: {}}
     gc.PATH_STAR = True
-    registered = []
+    registered = []                      # classes registered on the module-level registry (undone at the end)
+    klasses = _mk_classes(case.get('classes', []))
+    by_name = {c.__name__: c for c in klasses}
+    n_regs = case.get('n_regs', 1)
+    glommers = [glom.Glommer() for _ in range(n_regs - 1)]
+    reg_hist = [[] for _ in range(n_regs)]        # per registry: (class, handlers) in registration order
+
     def build_entry(entry):
+        """-> (target, spec, caller's scope mapping or None)"""
         if 'py' in entry:
             tb, sb = _py_pool()[entry['py']]
-            return (tb(), sb())
+            return (tb(), sb(), None)
         fns = {}
-        return (ic.dec(entry['target'], fns), ic.build(entry['spec'], fns))
+        t = dec_o(entry['otarget'], klasses, fns) if 'otarget' in entry else ic.dec(entry['target'], fns)
+        sc = {n: ic.dec(v, fns) for n, v in entry['scope']} if entry.get('scope') else None
+        return (t, build06(entry['spec'], fns), sc)
     objs = [build_entry(e) for e in case['pool']]
     first = {}
     fresh_jobs = []
@@ -225,35 +582,74 @@ def run_impl(case):
             elif op['op'] == 'set_star':
                 gc.PATH_STAR = op['v']
             elif op['op'] == 'register':
-                cls = type('R%d' % len(registered), (object,), {})
-                glom.register(cls, get=getattr)
-                registered.append(cls)
+                r = op.get('reg', 0)
+                if 'cls' in op:
+                    cls = by_name[op['cls']]
+                    kw = {opn: tagged(opn, tag) for opn, tag in op.get('kw', [])}
+                else:
+                    cls = type('R%d' % sum(len(h) for h in reg_hist), (object,), {})
+                    kw = {'get': getattr}
+                if r == 0:
+                    glom.register(cls, **kw)
+                    registered.append(cls)
+                else:
+                    glommers[r - 1].register(cls, **kw)
+                reg_hist[r].append((cls, kw))
             elif op['op'] == 'glom':
-                t, s = objs[op['idx']]
+                entry = case['pool'][op['idx']]
+                r = op.get('reg', 0)
+                call = glom.glom if r == 0 else glommers[r - 1].glom
+                t, s, sc = objs[op['idx']]
                 if 'tidx' in op:
                     t = objs[op['tidx']][0]          # the same spec object on another target
+                if r != 0:
+                    sc = None                        # Glommer.glom passes its own scope
                 keys_before = {b: set(Path._CACHE[b]) for b in (True, False)}
-                before = (snapshot(t), repr(s), snapshot(s) if isinstance(s, (list, tuple, dict)) else None)
-                oc = outcome(t, s, gc.PATH_STAR)
-                after = (snapshot(t), repr(s), snapshot(s) if isinstance(s, (list, tuple, dict)) else None)
+                before = (snapshot(t), repr(s), snapshot(s) if isinstance(s, (list, tuple, dict)) else None,
+                          deep_snapshot(t))
+                g_before = deep_snapshot(s)
+                sc_before = deep_snapshot(sc)
+                oc = outcome(t, s, gc.PATH_STAR, call, sc)
+                after = (snapshot(t), repr(s), snapshot(s) if isinstance(s, (list, tuple, dict)) else None,
+                         deep_snapshot(t))
                 o['inputs_unchanged'] = (before == after)
+                o['spec_graph_unchanged'] = (g_before == deep_snapshot(s))
+                o['scope_unchanged'] = (sc_before == deep_snapshot(sc))
                 # texts this call parsed and stored (the model replays them to stay in step)
                 o['impl_new_keys'] = sorted([b, k] for b in (True, False)
                                             for k in set(Path._CACHE[b]) - keys_before[b])
                 # outcome must not depend on the history of this spec *object*: compare with freshly
                 # built, structurally identical objects evaluated right now
                 t2 = build_entry(case['pool'][op.get('tidx', op['idx'])])[0]
-                s2 = build_entry(case['pool'][op['idx']])[1]
-                oc2 = outcome(t2, s2, gc.PATH_STAR)
+                _, s2, sc2 = build_entry(entry)
+                oc2 = outcome(t2, s2, gc.PATH_STAR, call, sc2 if r == 0 else None)
                 o['same_as_rebuilt'] = (strip_fn_names(oc2) == strip_fn_names(oc))
-                keyf = (op['idx'], op.get('tidx'), gc.PATH_STAR)
+                keyf = (op['idx'], op.get('tidx'), gc.PATH_STAR, r, len(reg_hist[r]))
                 if keyf not in first:
                     first[keyf] = oc
                 o['same_as_first'] = (first[keyf] == oc)
+                # ... nor on which lookups were made before the registrations in force: the same call in
+                # a freshly built registry given the same registrations in the same order
+                if sc is None and ('otarget' in entry or reg_hist[r]):
+                    fg = glom.Glommer()
+                    for cls, kw in reg_hist[r]:
+                        fg.register(cls, **kw)
+                    t3 = build_entry(case['pool'][op.get('tidx', op['idx'])])[0]
+                    s3 = build_entry(entry)[1]
+                    oc3 = outcome(t3, s3, gc.PATH_STAR, fg.glom)
+                    o['same_as_fresh_registry'] = (strip_fn_names(oc3) == strip_fn_names(oc))
+                    if not o['same_as_fresh_registry']:
+                        o['here'], o['fresh_registry'] = oc, oc3
+                if 'lookups' in entry and 'tidx' not in op and 'ok' in oc:
+                    ran = {(l['type'], l['op']): l['handler'] for l in oc['log'] if 'handler' in l}
+                    o['impl_lookups'] = [[ty, opn, ran.get((ty, opn), 'default')] for ty, opn in entry['lookups']]
+                vo = vars_observation(entry, 'e%d' % op['idx'], t, oc)
+                if vo is not None:
+                    o['vars'] = vo
                 o['same_as_fresh'] = None
-                if budget > 0 and len(registered) == 0 and 'py' not in case['pool'][op['idx']] and 'tidx' not in op:
+                if budget > 0 and not reg_hist[0] and r == 0 and 'target' in entry and 'holder' not in entry \
+                        and 'tidx' not in op:
                     budget -= 1
-                    entry = case['pool'][op['idx']]
                     fresh_jobs.append((len(ops_out), oc,
                                        (os.environ.get('GLOM_REPO', '/repo'), entry['target'], entry['spec'], gc.PATH_STAR)))
             if op['op'] != 'register' and op['op'] != 'set_star':
@@ -291,10 +687,14 @@ def _prune(tree, cls):
             _prune(tree[k], cls)
 
 
+OBSERVED = ('same_as_first', 'same_as_fresh', 'same_as_rebuilt', 'inputs_unchanged', 'fresh', 'here',
+            'same_as_fresh_registry', 'fresh_registry', 'spec_graph_unchanged', 'scope_unchanged', 'vars')
+
+
 def key(case):
-    return {'ops': [{k: v for k, v in o.items() if not k.startswith('impl') and k not in
-                     ('same_as_first', 'same_as_fresh', 'same_as_rebuilt', 'inputs_unchanged', 'fresh', 'here')} for o in case['ops']],
-            'pool': case['pool']}
+    return {'ops': [{k: v for k, v in o.items() if not k.startswith('impl') and k not in OBSERVED}
+                    for o in case['ops']],
+            'pool': case['pool'], 'classes': case.get('classes', []), 'n_regs': case.get('n_regs', 1)}
 
 
 def nontrivial(case, verdict):
@@ -312,7 +712,8 @@ def nontrivial(case, verdict):
 
 def shrink(case):
     base = {k: v for k, v in case.items() if not k.startswith('impl')}
-    ops = [{k: v for k, v in o.items() if k in ('op', 'text', 'prefix', 'n', 'v', 'idx', 'tidx')} for o in case['ops']]
+    ops = [{k: v for k, v in o.items() if k in ('op', 'text', 'prefix', 'n', 'v', 'idx', 'tidx', 'reg', 'cls', 'kw')}
+           for o in case['ops']]
     n = len(ops)
     step = max(n // 2, 1)
     while step >= 1:
